@@ -392,10 +392,13 @@ class Interstitial(object):
         for transitionset, rates, symmrates, bET in zip(self.jumpnetwork, ratelist, symmratelist, betaeneT):
             for ((i, j), dx), rate, symmrate in zip(transitionset, rates, symmrates):
                 # symmrate = sqrtrho[i]*invsqrtrho[j]*rate
-                omega_ij[i, j] += symmrate
-                omega_ij[i, i] -= rate
-                domega_ij[i, j] += symmrate * (bET - 0.5 * (siteene[i] + siteene[j]))
-                domega_ij[i, i] -= rate * (bET - siteene[i])
+                if i != j:
+                    # a jump between translation images of one site drops out of the q=0 rate matrix; adding and
+                    # subtracting its rate leaves roundoff that the pseudoinverse can mistake for a mode
+                    omega_ij[i, j] += symmrate
+                    omega_ij[i, i] -= rate
+                    domega_ij[i, j] += symmrate * (bET - 0.5 * (siteene[i] + siteene[j]))
+                    domega_ij[i, i] -= rate * (bET - siteene[i])
                 bias_i[i] += sqrtrho[i] * rate * dx
                 dbias_i[i] += sqrtrho[i] * rate * dx * (bET - 0.5 * (siteene[i] + Eave))
                 D0 += 0.5 * np.outer(dx, dx) * rho[i] * rate
@@ -484,10 +487,12 @@ class Interstitial(object):
         for transitionset, rates, symmrates, dipoles in zip(self.jumpnetwork, ratelist, symmratelist, jumpdipoles):
             for ((i, j), dx), rate, symmrate, dipole in zip(transitionset, rates, symmrates, dipoles):
                 # symmrate = sqrtrho[i]*invsqrtrho[j]*rate
-                omega_ij[i, j] += symmrate
-                omega_ij[i, i] -= rate
-                domega_ij[i, j] -= symmrate * (dipole - 0.5 * (sitedipoles[i] + sitedipoles[j]))
-                domega_ij[i, i] += rate * (dipole - sitedipoles[i])
+                if i != j:
+                    # (same-site jumps drop out at q=0; see diffusivity)
+                    omega_ij[i, j] += symmrate
+                    omega_ij[i, i] -= rate
+                    domega_ij[i, j] -= symmrate * (dipole - 0.5 * (sitedipoles[i] + sitedipoles[j]))
+                    domega_ij[i, i] += rate * (dipole - sitedipoles[i])
                 bias_i[i] += sqrtrho[i] * rate * dx
                 biasP_i[i] += vector_tensor_outer(sqrtrho[i] * rate * dx, dipole - 0.5 * (sitedipoles[i] + dipoleave))
                 D0 += 0.5 * np.outer(dx, dx) * rho[i] * rate
